@@ -52,8 +52,23 @@ def history_case(draw):
     return {"kind": "history", "paths": paths, "layout": layout, "ops": [list(o) for o in ops]}
 
 
+@st.composite
+def overlapping_case(draw):
+    """the same file reachable under two names: use paths d0/ and d0/in/ (in this order or the other), `in/x` and `x`, both files present"""
+    c = draw(history_case())
+    b = draw(st.sampled_from(["a.chai", "b.chai"]))
+    c["paths"] = draw(st.sampled_from([["d0/", "d0/in/"], ["d0/", "d0/in/"], ["d0/in/", "d0/"], ["d1/", "d0/", "d0/in/"], ["d0/", "d2/", "d0/in/"]]))
+    c["layout"]["d0/" + b] = draw(st.sampled_from([0, 0, 5]))
+    c["layout"]["d0/in/" + b] = draw(st.sampled_from([0, 0, 2]))
+    kinds = ["use", "use_script"]
+    first, second = draw(st.permutations(["in/" + b, b]))
+    extra = c["ops"][:3]
+    c["ops"] = extra[:1] + [[draw(st.sampled_from(kinds)), first, "d0/"]] + extra[1:2] + [[draw(st.sampled_from(kinds)), second, "d0/"]] + extra[2:] + [["use", first, "d0/"]]
+    return c
+
+
 def strategy():
-    return st.one_of(file_case(), file_case(), history_case())
+    return st.one_of(file_case(), file_case(), history_case(), overlapping_case())
 
 
 def obs(r):
